@@ -43,7 +43,7 @@ def write_bounded(body):
     return False
 
 
-def run(rep, tier="quick", replay=None, evidence_dir=None):
+def run(rep, tier="quick", replay=None, evidence_dir=None, collect_only=False):
     prog = Program(factsmod.extract())
     rep.rule("C13.R1", "no partial Write::write on a non-memory sink with an uninspected result")
     rep.rule("C13.R2", "every byte count returned by a write call flows into the returned count")
@@ -224,6 +224,8 @@ def run(rep, tier="quick", replay=None, evidence_dir=None):
             rep.ob("C13.R5", "[%s] %s" % (o["rule"], o["instance"]), o["ok"], o["detail"], o["loc"])
     rep.floor("C13.R5", "imported state-after-write obligations", n5, 3)
 
+    if collect_only:
+        return rep
     rep.not_decided = ["behaviour of particular sinks; Interrupted handling inside std's write_all",
                        "equality of the delivered byte sequence with the in-memory encoding (needs execution)"]
     return common.finish(rep, level="other",
